@@ -3,18 +3,39 @@
 Require Export Verif.Model.Base Verif.Model.Roles.
 Require Import Verif.Proofs.RolesP.
 
-(* ---- sink C12_commit: input (cfg, q.RetryRMNSignatures, observer, observation); output: accepted? ---- *)
-Definition cv_in := (cfg * bool * N * cobs)%type.
-Definition cv_model (i : cv_in) : bool := let '(g, retry, o, ob) := i in validate_commit g retry o ob.
+(* Round context: the harness takes the verdict in every kind of round.  Of the context only the retry flag of the
+   query (merkle validator) and the presence of the discovery processor can influence the verdict; the previous outcome
+   (type / state), RMN signatures in the query, the RMN switch and the contracts-initialised flag must not, so the model
+   ignores them and any dependence of the implementation on them shows up as a mismatch and — for role data — as a
+   violated property.  Without discovery processor the discovery part is neither validated nor used by Outcome: it is
+   judged as absent. *)
+Definition strip_cd (disc : bool) (ob : cobs) : cobs :=
+  if disc then ob else mkCobs (co_m ob) (co_t ob) (co_f ob) [] (co_fchain ob).
+Definition strip_ed (disc : bool) (ob : eobs) : eobs :=
+  if disc then ob
+  else mkEobs (e_commit ob) (e_msgs ob) (e_keys_ok ob) (e_tokens ob) (e_costly ob) (e_nonces ob) [].
+
+(* ---- sink C12_commit: input (cfg, (previous merkle outcome type, RMN signatures in query, RMN enabled, discovery
+   processor present, contracts initialised), q.RetryRMNSignatures, observer, observation); output: accepted? ---- *)
+Definition cctx := (N * bool * bool * bool * bool)%type.
+Definition cctx_disc (c : cctx) : bool := let '(_, _, _, d, _) := c in d.
+Definition cv_in := (cfg * cctx * bool * N * cobs)%type.
+Definition cv_model (i : cv_in) : bool :=
+  let '(g, c, retry, o, ob) := i in validate_commit g retry o (strip_cd (cctx_disc c) ob).
 Definition cv_ok (i : cv_in) (v : bool) : bool :=
-  let '(g, retry, o, ob) := i in commit_prop_check g retry o ob v.
+  let '(g, c, retry, o, ob) := i in commit_prop_check g retry o (strip_cd (cctx_disc c) ob) v.
 Definition cv_known (i : cv_in) : N :=
-  let '(g, retry, o, ob) := i in known_code (bad_fields g o (cfields g ob)).
+  let '(g, c, retry, o, ob) := i in known_code (bad_fields g o (cfields g (strip_cd (cctx_disc c) ob))).
 Definition cv_judge := judge cv_model Bool.eqb cv_ok cv_known.
 
-(* ---- sink C12_exec: input (cfg, observer, observation); output: accepted? ---- *)
-Definition ev_in := (cfg * N * eobs)%type.
-Definition ev_model (i : ev_in) : bool := let '(g, o, ob) := i in validate_exec g o ob.
-Definition ev_ok (i : ev_in) (v : bool) : bool := let '(g, o, ob) := i in exec_prop_check g o ob v.
-Definition ev_known (i : ev_in) : N := let '(g, o, ob) := i in known_code (bad_fields g o (efields g ob)).
+(* ---- sink C12_exec: input (cfg, (previous outcome state, discovery processor present, contracts initialised),
+   observer, observation); output: accepted? ---- *)
+Definition ectx := (N * bool * bool)%type.
+Definition ectx_disc (c : ectx) : bool := let '(_, d, _) := c in d.
+Definition ev_in := (cfg * ectx * N * eobs)%type.
+Definition ev_model (i : ev_in) : bool := let '(g, c, o, ob) := i in validate_exec g o (strip_ed (ectx_disc c) ob).
+Definition ev_ok (i : ev_in) (v : bool) : bool :=
+  let '(g, c, o, ob) := i in exec_prop_check g o (strip_ed (ectx_disc c) ob) v.
+Definition ev_known (i : ev_in) : N :=
+  let '(g, c, o, ob) := i in known_code (bad_fields g o (efields g (strip_ed (ectx_disc c) ob))).
 Definition ev_judge := judge ev_model Bool.eqb ev_ok ev_known.
